@@ -219,7 +219,7 @@ End Entry.
 (* ---------- simulation: the directory against the map url -> slot ---------- *)
 Section Sim.
   Variable sha : string -> string.
-  Variable enc : string -> option string -> string.
+  Variable enc : bool -> string -> option string -> string.
   Variable dec : string -> option (string * option string).
   Variable parse : string -> crlfact.
   Variable US : list string.
@@ -290,7 +290,7 @@ Section Sim.
       inv f' (fst (spec_step dec parse s o)) /\ keys_ok f' /\
       map (join root) w = writes_of sha o.
   Proof.
-    intros I K Hu Hrt. destruct o as [u bd|u t|u c|u|u]; cbn [op_url] in Hu.
+    intros I K Hu Hrt. destruct o as [u e bd|u t|u c|u|u]; cbn [op_url] in Hu.
     - (* Set *)
       destruct bd as [[[b|] d]|]; cbn [step set spec_step writes_of].
       + pose proof (I u Hu) as R. unfold rel in R. cbn in Hrt.
@@ -389,7 +389,7 @@ Section Spec.
 
   Lemma step_other s o u : op_url o <> u -> fst (spec_step s o) u = s u.
   Proof.
-    intros N. destruct o as [v bd|v t|v c|v|v]; cbn in *; auto;
+    intros N. destruct o as [v e bd|v t|v c|v|v]; cbn in *; auto;
       try (apply supd_other; congruence).
     destruct bd as [[[b|] d]|]; cbn; auto.
     destruct (s v) as [[| |]|]; cbn; auto; apply supd_other; congruence.
@@ -411,7 +411,7 @@ Section Spec.
     snd (spec_step s1 o) = snd (spec_step s2 o) /\
     fst (spec_step s1 o) (op_url o) = fst (spec_step s2 o) (op_url o).
   Proof.
-    intros E. destruct o as [v bd|v t|v c|v|v]; cbn in *; rewrite ?supd_same; auto.
+    intros E. destruct o as [v e bd|v t|v c|v|v]; cbn in *; rewrite ?supd_same; auto.
     - destruct bd as [[[b|] d]|]; cbn; auto. rewrite <- E.
       destruct (s1 v) as [[| |]|] eqn:E1; cbn; rewrite ?supd_same; auto; split; congruence.
     - rewrite E; auto.
@@ -445,7 +445,7 @@ Section Spec.
     assert (fst (spec_step s o) u <> Some SDir) as Hs1.
     { destruct (string_dec (op_url o) u) as [E|N]; [|rewrite step_other; auto].
       assert (o <> OMkdir u) as Ho by (apply H; cbn; auto).
-      destruct o as [v bd|v t|v c|v|v]; cbn in E; subst v; cbn; rewrite ?supd_same; auto; try discriminate.
+      destruct o as [v e bd|v t|v c|v|v]; cbn in E; subst v; cbn; rewrite ?supd_same; auto; try discriminate.
       - destruct bd as [[[b|] d]|]; cbn; auto.
         destruct (s u) as [[| |]|] eqn:E1; cbn; rewrite ?supd_same; auto; try discriminate; congruence.
       - intros X; injection X as X. eapply slot_of_not_dir; eauto. }
@@ -461,7 +461,7 @@ Section Spec.
     induction ops as [|o ops IH]; intros s; cbn [C15_Model.spec_run]; auto.
     destruct (spec_step s o) as [s1 r] eqn:Es.
     specialize (IH s1). destruct (spec_run s1 ops) as [rs s2]. cbn [fst snd] in *.
-    destruct o as [v bd|v t|v c|v|v]; cbn in Es |- *.
+    destruct o as [v e bd|v t|v c|v|v]; cbn in Es |- *.
     - destruct bd as [[[b|] d]|]; cbn in Es.
       + destruct (s v) as [[| |]|]; injection Es as <- <-; cbn; auto.
       + injection Es as <- <-; cbn; auto.
@@ -478,7 +478,7 @@ End Spec.
 (* ---------- the theorems of the property ---------- *)
 Section Top.
   Variable sha : string -> string.
-  Variable enc : string -> option string -> string.
+  Variable enc : bool -> string -> option string -> string.
   Variable dec : string -> option (string * option string).
   Variable parse : string -> crlfact.
   Notation results := (impl_results sha enc dec parse).
@@ -493,8 +493,8 @@ Section Top.
     rewrite spec_run_app. cbn [fst snd C15_Model.spec_run spec_step]. apply last_last.
   Qed.
 
-  Theorem get_after_set pre mid u b d t :
-    let ops := (pre ++ OSet u (Some (Some b, d)) :: mid)%list in
+  Theorem get_after_set pre mid u e b d t :
+    let ops := (pre ++ OSet u e (Some (Some b, d)) :: mid)%list in
     inj_on sha (urls (ops ++ [OGet u t])) -> roundtrip_on enc dec (ops ++ [OGet u t]) ->
     (forall o, In o pre -> o <> OMkdir u) ->
     (forall o, In o mid -> op_url o <> u) ->
@@ -557,19 +557,19 @@ Section Top.
   Qed.
 
   Theorem set_nil_nothing (f : fs) u :
-    set sha enc f u None = (f, RErr 7, []) /\
-    forall d, set sha enc f u (Some (None, d)) = (f, RErr 8, []).
+    (forall e, set sha enc f u e None = (f, RErr 7, [])) /\
+    forall e d, set sha enc f u e (Some (None, d)) = (f, RErr 8, []).
   Proof. split; reflexivity. Qed.
 
   (* isolation, one step: a Set on u leaves the file of every other url alone *)
-  Theorem set_isolated (f : fs) u u' bd t :
+  Theorem set_isolated (f : fs) u u' e bd t :
     u' <> u -> (sha u' = sha u -> u' = u) ->
-    alookup (fname u') (fst (fst (set sha enc f u bd))) = alookup (fname u') f /\
-    get sha dec parse (fst (fst (set sha enc f u bd))) u' t = get sha dec parse f u' t.
+    alookup (fname u') (fst (fst (set sha enc f u e bd))) = alookup (fname u') f /\
+    get sha dec parse (fst (fst (set sha enc f u e bd))) u' t = get sha dec parse f u' t.
   Proof.
     intros N Hi.
     assert (fname u' <> fname u) as Nf by (intros E; apply hex_inj in E; auto).
-    assert (alookup (fname u') (fst (fst (set sha enc f u bd))) = alookup (fname u') f) as E.
+    assert (alookup (fname u') (fst (fst (set sha enc f u e bd))) = alookup (fname u') f) as E.
     { destruct bd as [[[b|] d]|]; cbn; auto.
       destruct (alookup (fname u) f) as [[c|]|]; cbn; auto; apply alookup_aset_other; auto. }
     split; auto. unfold get. rewrite E. reflexivity.
@@ -611,7 +611,7 @@ Section Top.
 
   Lemma step_writes f o : map (join root) (snd (step sha enc dec parse f o)) = writes_of sha o.
   Proof.
-    destruct o as [u bd|u t|u c|u|u]; cbn; auto.
+    destruct o as [u e bd|u t|u c|u|u]; cbn; auto.
     destruct bd as [[[b|] d]|]; cbn; auto.
     destruct (alookup (fname u) f) as [[c|]|]; cbn; auto.
   Qed.
@@ -634,7 +634,7 @@ Section Top.
     unfold impl_writes. rewrite run_writes. unfold expected_writes. intros H.
     apply in_flat_map in H as (o & Ho & Hp).
     exists (op_url o). split; [apply in_map; auto|].
-    destruct o as [u bd|u t|u c|u|u]; cbn in Hp; try contradiction.
+    destruct o as [u e bd|u t|u c|u|u]; cbn in Hp; try contradiction.
     destruct bd as [[[b|] d]|]; cbn in Hp; try contradiction.
     destruct Hp as [<-|[]]. reflexivity.
   Qed.
@@ -662,7 +662,7 @@ Lemma roundtrip_b_on dec ops : roundtrip_b dec ops = true -> roundtrip_on enc_js
 Proof.
   unfold roundtrip_b, roundtrip_on. rewrite forallb_forall, Forall_forall.
   intros H o Ho. specialize (H o Ho).
-  destruct o as [u bd|u t|u c|u|u]; cbn; auto.
+  destruct o as [u e bd|u t|u c|u|u]; cbn; auto.
   destruct bd as [[[b|] d]|]; cbn; auto. apply dec_res_eqb_eq; auto.
 Qed.
 
